@@ -105,4 +105,76 @@ theorem deque_end_to_end (c : Ctx) (rec : Rec) (sv : Val) (id : Nat) (tps : List
   simp only [specialize, hT, hlen, hcap, hp, hel, hg, hgc, hnn, hhn, hhead, Int.toNat_natCast, hrd, hz, hps, if_false,
     Option.bind_eq_bind, Option.bind_some, Option.pure_def, Option.map_some, bind, pure]
 
+/-- the scan only looks at the groups it loads: group 0 and the groups `g` with `16 * g < buckets` -/
+theorem hbScanFrom_congr (f f' : Nat → Bytes) (buckets : Nat) (fuel g : Nat)
+    (h : ∀ k, g ≤ k → (k = g ∨ 16 * k < buckets) → f k = f' k) :
+    hbScanFrom f buckets fuel g = hbScanFrom f' buckets fuel g := by
+  induction fuel generalizing g with
+  | zero => rfl
+  | succ fuel ih =>
+    unfold hbScanFrom
+    rw [h g (Nat.le_refl _) (Or.inl rfl)]
+    split
+    · rfl
+    · next hlt =>
+      rw [ih (g + 1) (fun k hk hk' => h k (by omega) (by
+        cases hk' with
+        | inl e => right; omega
+        | inr e => right; exact e))]
+
+/-- the form `specialize` uses: the loaded groups as a list -/
+theorem hbScan_loaded (ctrl : Nat → Nat) (buckets : Nat) (hb : 0 < buckets)
+    (tail : ∀ j, buckets ≤ j → j < 16 * ((buckets + 15) / 16) → ctrl j ≥ 128) (loaded : List Bytes)
+    (hl : ∀ g, (g = 0 ∨ 16 * g < buckets) → loaded.getD g [] = groupAt ctrl g) :
+    hbScan (fun g => loaded.getD g []) buckets = (List.range buckets).filter (isFull ctrl) := by
+  rw [← C06_hashbrown_iter ctrl buckets hb tail]
+  unfold hbScan
+  apply hbScanFrom_congr
+  intro k _ hk
+  exact hl k (by omega)
+
+theorem parseBuckets_all (c : Ctx) (rec : Rec) (kv kvSize ctrlp : Nat) (k v : Nat → Val) (idx : List Nat)
+    (h : ∀ j ∈ idx, ∃ ty names tp,
+      rec ((c.rd (ctrlp - (j + 1) * kvSize) kvSize).map fun bs => ⟨bs, some (ctrlp - (j + 1) * kvSize)⟩) kv =
+        some (.struct ty names [k j, v j] tp)) :
+    parseBuckets c rec kv kvSize ctrlp idx = some (idx.map fun j => (k j, v j)) := by
+  induction idx with
+  | nil => simp [parseBuckets]
+  | cons j rest ih =>
+    obtain ⟨ty, names, tp, hj⟩ := h j (by simp)
+    have hrest := ih (fun x hx => h x (by simp [hx]))
+    simp [parseBuckets, hj, hrest]
+
+/-- **HashMap end to end**: control pointer, `bucket_mask`, the `(K, V)` type and its size found in the header; the loaded
+    16-byte groups are the table's control bytes (tail invariant); the element decoder shows the pair `(k j, v j)` on the
+    image of bucket `j`, which lies `(j + 1) * size` below the control bytes ⇒ the map is shown as exactly the pairs of the
+    full buckets `j < buckets`, each once (in index order) — tombstones and empty buckets are not shown. -/
+theorem hashmap_end_to_end (c : Ctx) (rec : Rec) (sv : Val) (id : Nat) (tps : List (String × Option Nat))
+    (ctrlp mask kv kvSize : Nat) (ctrl : Nat → Nat) (tty : String) (tnames : List (Option String)) (tvals : List Val)
+    (ttps : List (String × Option Nat)) (loaded : List Bytes) (k v : Nat → Val)
+    (hctrl : assumePointer sv "pointer" = some ctrlp)
+    (hmask : assumeScalarNumber sv "bucket_mask" = some (mask : Int))
+    (htable : assumeStruct sv "table" = some (.struct tty tnames tvals ttps))
+    (hkv : lookupTParam ttps "T" = some kv) (hsz : c.size kv = some kvSize)
+    (hload : (List.range (if mask + 1 ≤ 16 then 1 else (mask + 1 + 15) / 16)).mapM (fun g => c.rd (ctrlp + 16 * g) 16) = some loaded)
+    (hl : ∀ g, (g = 0 ∨ 16 * g < mask + 1) → loaded.getD g [] = groupAt ctrl g)
+    (tail : ∀ j, mask + 1 ≤ j → j < 16 * ((mask + 1 + 15) / 16) → ctrl j ≥ 128)
+    (hpairs : ∀ j, j < mask + 1 → ctrl j < 128 → ∃ ty names tp,
+      rec ((c.rd (ctrlp - (j + 1) * kvSize) kvSize).map fun bs => ⟨bs, some (ctrlp - (j + 1) * kvSize)⟩) kv =
+        some (.struct ty names [k j, v j] tp)) :
+    specialize c rec .hashmap sv id tps =
+      some (.specMap false sv (((List.range (mask + 1)).filter (isFull ctrl)).map k)
+                               (((List.range (mask + 1)).filter (isFull ctrl)).map v)) := by
+  have hscan := hbScan_loaded ctrl (mask + 1) (by omega) tail loaded hl
+  have hpb := parseBuckets_all c rec kv kvSize ctrlp k v ((List.range (mask + 1)).filter (isFull ctrl)) (by
+    intro j hj
+    rw [List.mem_filter, List.mem_range] at hj
+    exact hpairs j hj.1 (by simpa [isFull] using hj.2))
+  have hnn : ¬ ((mask : Int) < 0) := by omega
+  simp only [specialize, hctrl, hmask, htable, hkv, hsz, hnn, Int.toNat_natCast, hload, hscan, hpb, if_false,
+    Option.bind_eq_bind, Option.bind_some, Option.pure_def, bind, pure]
+  have hbeq : (SpecKind.hashmap == SpecKind.hashmap) = true := by decide
+  simp only [hbeq, if_true, List.map_map]
+  rfl
+
 end BsVerif.Value
